@@ -30,4 +30,20 @@ QueriesFull ==
   \cup {QMarg(<<q[1]>>, << <<q[2], b>> >>) : q \in Perm2, b \in 0..1}
   \cup {QMarg(<<q[1]>>, << <<q[2], b>>, <<q[3], 1 - b>> >>) : q \in Perm3, b \in 0..1}
   \cup {QMarg(<<q[1], q[2]>>, << <<q[3], b>> >>) : q \in Perm3, b \in 0..1}
+\* the tables the replay driver needs (raw matrices, operators of the expectation queries, the vocabulary)
+AllOps == OpNames1 \cup OpNames2
+AllRaw == RawNames1 \cup RawNames2 \cup RawNames3
+Tables == [raw |-> [nm \in AllRaw |-> RawM(nm)], ops |-> [nm \in AllOps |-> OpM(nm)],
+           const |-> ConstNames1 \cup ConstNames2 \cup ConstNames3,
+           arity |-> [nm \in ParamNames1 \cup ParamNames2 |-> ParamArity(nm)],
+           half |-> HalfAngleGates,
+           nq |-> [nm \in ConstNames1 \cup ConstNames2 \cup ConstNames3 \cup ParamNames1 \cup ParamNames2 \cup AllRaw |-> NQ(nm)]]
+ASSUME PrintT(<<"QVJSON", ToJson(Tables)>>)
+
+\* exhaustive small scope for the replays: every gate sequence of length 3 over this alphabet (the driver surrounds
+\* each with the battery of light-cone / dense queries, a parameter update, and the battery again)
+GatesEnum == << G("H", <<0>>, e0, e0), GP("RX", <<1>>, e0, <<2>>), G("CX", <<0, 1>>, e0, e0), G("SWAP", <<0, 2>>, e0, e0),
+                G("SWAP", <<1, 2>>, e0, e0), G("T", <<2>>, <<0>>, e0) >>
+ASSUME \A a, b, c \in 1..Len(GatesEnum) :
+          PrintT(<<"QVJSON", ToJson([enum |-> <<GatesEnum[a], GatesEnum[b], GatesEnum[c]>>])>>)
 =============================================================================
